@@ -217,6 +217,36 @@ func (f fragConn) Write(p []byte) (int, error) {
 
 var fragMode = 0
 
+// eofJoinConn is the broker's side of a connection. Once join is set, the end of the stream is reported together with the
+// last bytes read - (n, io.EOF) from one Read, as the io.Reader contract allows and TLS connections do - instead of by a
+// separate Read: a packet that arrives like that has arrived.
+type eofJoinConn struct {
+	net.Conn
+	join    int32
+	pending []byte
+}
+
+func (c *eofJoinConn) Read(b []byte) (int, error) {
+	if len(c.pending) > 0 {
+		n := copy(b, c.pending)
+		c.pending = c.pending[n:]
+		return n, nil
+	}
+	n, err := c.Conn.Read(b)
+	if n > 0 && err == nil && atomic.LoadInt32(&c.join) == 1 {
+		var one [1]byte
+		c.Conn.SetReadDeadline(time.Now().Add(300 * time.Millisecond))
+		m, e2 := c.Conn.Read(one[:])
+		c.Conn.SetReadDeadline(time.Time{})
+		if m > 0 {
+			c.pending = append(c.pending, one[0])
+		} else if e2 == io.EOF {
+			return n, io.EOF
+		}
+	}
+	return n, err
+}
+
 var payloadTags = []string{"x", "y", "z", "w", "w1", "w2", "w3", "B", "B2", "M", "p1", "p2", "MID", "HUGE"}
 
 func tagOf(b []byte) string {
@@ -345,6 +375,7 @@ func brokerEventFn(seq uint64, ev string, svc uint64, a, b, c int64, s string) {
 
 type bConn struct {
 	c      net.Conn
+	srv    *eofJoinConn // the broker's side of the pipe
 	svc    uint64
 	closed bool
 	q1ids  []int // identifiers of QoS 1 / QoS 2 deliveries this client has not answered yet
@@ -527,6 +558,12 @@ func refusedFirstPacket(kind string) []byte {
 		return ok("MQTT", 4, 2, "rk")
 	case "auth-k1-clean": // rejected login that names the client id of somebody else's session
 		return pkt(0x10, append(append(append(lp([]byte("MQTT")), 4, 0x82, 0, 60), lp([]byte("k1"))...), lp([]byte("evil"))...))
+	case "abort-k1-keep": // a valid resume attempt for k1 that the client abandons before reading the CONNACK
+		return pkt(0x10, append(append(append(lp([]byte("MQTT")), 4, 0x80, 0, 60), lp([]byte("k1"))...), lp([]byte("good"))...))
+	case "v3-truncated10": // MQTT 3.1 CONNECT ("MQIsdp", level 3) that ends right behind the connect flags
+		return pkt(0x10, append(lp([]byte("MQIsdp")), 3, 2))
+	case "v3-truncated11": // ... or after the first byte of the keep-alive
+		return pkt(0x10, append(lp([]byte("MQIsdp")), 3, 2, 0))
 	case "auth-k1-keep":
 		return pkt(0x10, append(append(append(lp([]byte("MQTT")), 4, 0x80, 0, 60), lp([]byte("k1"))...), lp([]byte("evil"))...))
 	case "reserved":
@@ -735,14 +772,15 @@ func runBehaviour(steps []bStep, auth string, maxqos int, res *Result) (result *
 			bev.mu.Lock()
 			nAdmit := len(bev.admit)
 			bev.mu.Unlock()
-			if err := service.VerifServe(r.svr, sv); err != nil {
+			srv := &eofJoinConn{Conn: sv}
+			if err := service.VerifServe(r.svr, srv); err != nil {
 				return &brokerMismatch{where + ": VerifServe: " + err.Error(), "INFRA"}
 			}
 			first := connectBytes(a)
 			if a.A == "refuse" {
 				first = refusedFirstPacket(a.Kind)
 			}
-			m := &bConn{c: cl}
+			m := &bConn{c: cl, srv: srv}
 			r.conns[a.C] = m
 			werr := make(chan error, 1)
 			go func() {
@@ -791,6 +829,16 @@ func runBehaviour(steps []bStep, auth string, maxqos int, res *Result) (result *
 					return &brokerMismatch{where + ": connection accepted (CONNACK) but never admitted", "C11"}
 				}
 				m.startReader()
+			} else if strings.HasPrefix(a.Kind, "abort") {
+				// the client gives up right after its CONNECT: it closes without reading, the CONNACK cannot be written
+				select {
+				case <-werr:
+				case <-time.After(r.tmo):
+				}
+				cl.Close()
+				time.Sleep(30 * time.Millisecond)
+				m.closed = true
+				skipBarrier[a.C] = true
 			} else {
 				// a refused connection: optional CONNACK, then the broker closes; further packets have no effect
 				for {
@@ -865,6 +913,13 @@ func runBehaviour(steps []bStep, auth string, maxqos int, res *Result) (result *
 			switch a.How {
 			case "disconnect":
 				m.c.Write([]byte{0xe0, 0})
+			case "disconnect-eof":
+				// DISCONNECT and the end of the stream reach the broker in one Read
+				if m.srv != nil {
+					atomic.StoreInt32(&m.srv.join, 1)
+				}
+				m.c.Write([]byte{0xe0, 0})
+				m.c.Close()
 			case "bad":
 				m.c.Write([]byte{0x30, 0x01, 0x00}) // PUBLISH too short for its topic: protocol error
 			default:
@@ -986,7 +1041,7 @@ func runBehaviour(steps []bStep, auth string, maxqos int, res *Result) (result *
 		if n := r.sp.Count(); n != st.Nsess {
 			// what is stored after a step is the session property's observable (after a refused CONNECT: C11's)
 			tag := "C10"
-			if a.A == "refuse" {
+			if a.A == "refuse" && !strings.HasPrefix(a.Kind, "abort") {
 				tag = "C11"
 			}
 			mm := &brokerMismatch{fmt.Sprintf("%s %s: the session store holds %d sessions, specification %d", where, actDesc(a), n, st.Nsess), tag}
